@@ -29,6 +29,8 @@ var guardTables = map[string]map[string]GuardSpec{
 }
 
 func init() {
+	guardTables["stream.MemoryTableSource"] = map[string]GuardSpec{"index": {Lock: "mu"}}
+	guardTables["stream.tableStore"] = map[string]GuardSpec{"sources": {Lock: "mu"}}
 	guardTables["stream.analyticFieldEngine"] = map[string]GuardSpec{
 		"noPart": {Lock: "mu"}, "partitions": {Lock: "mu"}, "lru": {Lock: "mu"}, "lastResults": {Lock: "mu"}, "wrapperParsed": {Lock: "mu"},
 	}
